@@ -6,6 +6,7 @@ import (
 	"errors"
 	"fmt"
 	"io"
+	"math"
 	"net/http"
 	"strings"
 
@@ -640,9 +641,13 @@ func walkGatewaySimpleSelector(ctx context.Context, lastCid cid.Cid, terminalBlk
 				to = fileLength + *entityRange.To
 			}
 
-			numToRead := 1 + to - from
-			if numToRead < 0 {
+			if to < from-1 {
 				return errors.New("tried to read less than zero bytes")
+			}
+			// 1 + to - from, saturating: 'to' may lie far beyond the end of the file.
+			numToRead := to - from
+			if numToRead < math.MaxInt64 {
+				numToRead++
 			}
 
 			if _, err := f.Seek(from, io.SeekStart); err != nil {
